@@ -1,8 +1,8 @@
 """C17 - dispatcher splits rewards, bounded fee, keeps nothing (DESIGN 6, C17)."""
 from ..callgraph import explore, message_effects, site_guarded, call_sites
 from ..expr import show, find, arith_args
-from .common import CONTRACTS, entry, msg_enum, variant_env, stored, where
-from .msgs import vec_elems, coin_parts, wasm_execute, is_zero_fact
+from .common import CONTRACTS, entry, msg_enum, variant_env, stored, where, arm_handler
+from .msgs import push_sequences, response_sequences, vec_elems, coin_parts, wasm_execute, is_zero_fact
 
 DPCFG = "basset_sei_rewards_dispatcher::state::CONFIG"
 
@@ -57,6 +57,8 @@ def run(prog, world, sem, rep):
     rep.rule("C17.d", "the reward contract's UpdateGlobalIndex is emitted on every path, to Config.bsei_reward_contract, after the bSei-share send", 2)
     rep.rule("C17.h", "each held coin is counted once: the reward totals of the swap computation are accumulated over the elements of one "
              "query_all_balances(own address) answer (the bank lists each denom once), not over a configurable list", 1)
+    rep.rule("C17.i", "SwapToRewardDenom emits the conversion swaps (other denoms -> bSei reward denom) before the rebalancing swap whose offer is "
+             "computed from totals that include their simulated proceeds, on every success path", 1)
     rep.rule("C17.g", "swap computation roles: stSei share = total.multiply_ratio(stsei_total_bonded, stsei_total_bonded + bsei_total_bonded); "
              "the coin offered is in the denom of the side being sold and the asked denom is the other one; the stSei-side total "
              "accumulates only coins whose denom equals Config.stsei_reward_denom", 4)
@@ -168,11 +170,7 @@ def run(prog, world, sem, rep):
             if kind != "ok" or bb not in handler.blocks:
                 continue
             n_exits += 1
-            lists = find(x, lambda y: y.op == "call" and y.info == "cosmwasm_std::Response::add_messages")
-            if not lists:
-                seqs.append([])  # a success exit that emits no messages at all
-            for l in lists:
-                seqs.extend(push_sequences(world, l.args[1]))
+            seqs.extend(response_sequences(world, x))
         if seqs:
             ok_d = True
             detail = "%d success exit(s), %d push sequence(s) checked" % (n_exits, len(seqs))
@@ -199,6 +197,8 @@ def run(prog, world, sem, rep):
 
     # ---------------------------------------------------------------- C17.g swap computation
     vs2 = explore(sem, ex, variant_env(prog, ex, "SwapToRewardDenom"))
+    okord, dord, h2 = swap_order(world, sem, vs2)
+    rep.ob("C17.i", "conversions precede the rebalancing swap", okord, dord, where(h2.body))
     mr = call_sites(sem, vs2, lambda k: k == "cosmwasm_std::Uint128::multiply_ratio")
     if len(mr) != 1:
         rep.ob("C17.g", "share formula", False, "anchor-lost: expected one multiply_ratio in the swap computation, found %d" % len(mr))
@@ -303,42 +303,41 @@ def run(prog, world, sem, rep):
     rep.ob("C17.h", "reward totals are accumulated over the bank's balance list", ok_h, det_h)
 
 
-def push_sequences(world, e, limit=64):
-    """enumerate the element sequences of a Vec built by Vec::new()/vec![] and push()
-    along every alternative (phi); loops are cut"""
-    e = world.ident(e, expand_ws=False)
-    out = []
 
-    def go(x, depth):
-        x = world.ident(x, expand_ws=False)
-        if depth > 40:
-            return [[]]
-        if x.op == "out" and x.info[0].endswith("Vec::push"):
-            res = []
-            for s in go(x.args[0], depth + 1):
-                res.append(s + [x.args[-1]])
-            return res
-        if x.op == "out" and x.info[0].endswith("Vec::append"):
-            res = []
-            for s in go(x.args[0], depth + 1):
-                res.append(s + [x.args[-1]])
-            return res
-        if x.op == "phi":
-            res = []
-            for a in x.args:
-                res.extend(go(a, depth + 1))
-                if len(res) > limit:
-                    break
-            return res
-        if x.op == "call" and x.info == "vec!":
-            arr = x.args[0]
-            return [list(arr.args)] if arr.op == "array" else [[x]]
-        if x.op == "call" and x.info == "std::vec::Vec::new":
-            return [[]]
-        if x.op == "rec":
-            return [[]]  # loop-carried prefix: unknown earlier elements
-        return [[x]]
-    return go(e, 0)
+def swap_order(world, sem, vs2):
+    """C17.i / C19.f: (ok, detail, handler visit) - conversions precede the rebalancing swap in every response of SwapToRewardDenom"""
+    # ---- C17.i: the rebalancing swap spends proceeds of the conversions, so the conversions come first in the response
+    h2 = arm_handler(sem, vs2)
+    seqs2 = []
+    for (bb2, idx2, kind2, x2) in sem.ret_sites(h2.be):
+        if kind2 == "ok" and bb2 in h2.blocks:
+            seqs2.extend(response_sequences(world, x2))
+    okord = bool(seqs2)
+    dord = "anchor-lost: no response of the swap handler found"
+    kinds_all = []
+    for sq in seqs2:
+        ks = []
+        for el in sq:
+            eli = world.ident(el, expand_ws=False)
+            base = eli.args[0] if eli.op == "proj" else eli
+            if eli.op == "field" and eli.info[0] == "2" and find(eli.args[0], lambda y: y.op == "call" and y.info.endswith("convert_to_target_denoms")):
+                ks.append("conversions")
+            elif base.op == "call" and world.callee_body(base) is not None and find(world.norm(eli), lambda y: y.op == "adt" and y.info[0].endswith("WasmMsg")):
+                ks.append("rebalance")
+            elif find(world.norm(eli), lambda y: y.op == "adt" and y.info[0].endswith("WasmMsg")):
+                ks.append("rebalance")
+            else:
+                ks.append("?")
+        kinds_all.append(ks)
+        if "conversions" not in ks:
+            okord, dord = False, "a success path of the swap handler does not emit the conversion swaps: %s" % ks
+        elif "rebalance" in ks and ks.index("rebalance") < ks.index("conversions"):
+            okord, dord = False, "the rebalancing swap is emitted before the conversion swaps that fund it: %s" % ks
+        elif "?" in ks:
+            okord, dord = False, "unrecognised message in the swap response: %s" % ks
+    if okord:
+        dord = "message sequences %s" % kinds_all
+    return okord, dord, h2
 
 
 def classify_msg(world, sem, x):
